@@ -63,6 +63,9 @@ func (r *Reader) ReadByte() (byte, error) {
 // Result of one ReadFile run.
 type Result struct {
 	Records []reflect.Value // deep copies taken inside the callback
+	// Retained holds plain struct copies taken inside the callback (banks are never closed): what a caller
+	// that collects records the documented way still holds after ReadFile has returned
+	Retained []reflect.Value
 	Err     error
 	Panic   interface{}
 	Site    string
@@ -88,6 +91,11 @@ func Read(data []byte, mode int, t reflect.Type, ptr bool, failAt int, cbErr err
 	res.Err = avro.ReadFile(&Reader{Data: data, Mode: mode}, out, func(val unsafe.Pointer, rb *avro.ResourceBank) error {
 		v := reflect.NewAt(t, val).Elem()
 		res.Records = append(res.Records, gv.DeepCopy(v))
+		// the idiom of ReadFile's documentation: records = append(records, *(*record)(val)) — a plain struct
+		// copy kept while the bank stays open
+		keep := reflect.New(t).Elem()
+		keep.Set(v)
+		res.Retained = append(res.Retained, keep)
 		if n == failAt {
 			n++
 			return cbErr
